@@ -318,7 +318,51 @@ def sibling(ctx, qn, own_ok, closure, members):
         bad = [m for m in NOTE_MATERIAL if members[m] in accepted or (m != 'CORE' and members[m] in cl)]
         ctx.check(not bad, 'R2', fi.loc, fi.qualname, 'accepted-note-material',
                   'no note material is accepted', f'note material accepted: {bad}')
+        # a category the kern listener builds tokens of and that is NOT shared structure: such a token carries ctx.getText(), the
+        # part of the cell the parser matched.  While the start rule is not anchored (finding F3) that is a prefix of the cell,
+        # so accepting the category lets an "other" cell through with its text cut instead of wrapping the verbatim text.
+        if not _whole_cell(ctx):
+            shared_cl = closure({members[r] for r in REQUIRED + ['COMMENTS']})
+            built = _listener_categories(ctx)
+            leak = sorted(c for c in built if c in members and members[c] in cl and members[c] not in shared_cl
+                          and c not in NOTE_MATERIAL and c not in ('NOTE_REST', 'CHORD'))
+            ctx.check(not leak, 'R2', fi.loc, fi.qualname, 'accepted-unshared-kern-category',
+                      'no category that the kern listener builds from the matched text is accepted beyond the shared structure',
+                      f'accepted categories {leak} are built by the kern listener from ctx.getText() (the prefix the un-anchored start '
+                      f'rule matched) and are not shared structure: an "other" cell of that kind keeps the parser\'s token, so its '
+                      f'text is cut where the grammar stopped instead of being carried verbatim under the own category')
     return {'own': names_, 'accepted': accepted}
+
+
+def _whole_cell(ctx):
+    """True when the start rule is anchored (EOF) or import_token rejects an unexhausted stream (same facts as shared.whole_cell_consumption)."""
+    import re
+    g4 = shared._strip_g4_comments(ctx.prog.read('kern/kernSpineParser.g4'))
+    m = re.search(r'^\s*start\s*:\s*([^;]*);', g4, re.M)
+    if not m:
+        raise AnalysisError('kern/kernSpineParser.g4: start rule not found')
+    alts = [a.strip() for a in m.group(1).split('|')]
+    if all(a.split() and a.split()[-1] == 'EOF' for a in alts):
+        return True
+    it = ctx.prog.func(f'{N.KERN_IMP}.KernSpineImporter.import_token')
+    for n in walk_local(it.node):
+        if isinstance(n, ast.If) and 'EOF' in src(n.test) and any(isinstance(s, ast.Raise) for b in n.body + n.orelse for s in ast.walk(b)):
+            return True
+    return False
+
+
+def _listener_categories(ctx):
+    """Names of the categories passed explicitly to a token constructor in the hand-written parse-tree listener."""
+    mod = ctx.prog.module(N.LISTENER)
+    out = set()
+    for n in ast.walk(mod.tree):
+        if isinstance(n, ast.Call) and src(n.func).endswith('Token'):
+            for a in list(n.args) + [k.value for k in n.keywords]:
+                if isinstance(a, ast.Attribute) and isinstance(a.value, ast.Name) and a.value.id == 'TokenCategory':
+                    out.add(a.attr)
+    if len(out) < 3:
+        raise AnalysisError(f'{N.LISTENER}: token constructions with explicit categories not found (anchor moved)')
+    return out
 
 
 def r_dyn(ctx):
